@@ -54,20 +54,20 @@ CHECKS["C07"] = {
 CHECKS["C10"] = {
     "engine": "codec", "design_ref": "5/C10",
     "level": "exploration",
-    "level_text": "every sequence of up to 3 (thorough 4) field definitions over a 26-type alphabet in every master/slave "
+    "level_text": "every sequence of up to 3 (thorough 4) field definitions over a 31-type alphabet in every master/slave "
                   "split is created with the real DataField::create; ownership of bits is discovered black-box by "
                   "encoding, then length computation / write / read, whole-vs-single-field decoding, single-bit flips "
                   "and value changes are checked against each other for all value combinations: the three "
                   "implementations of the offset bookkeeping are compared on the complete bounded space",
     "level_note": "differential / metamorphic oracle plus two independent rules from the statement (full-byte fields "
                   "without gaps; length = bytes spanned); trusts the byte sizes and bit ranges of the alphabet's types "
-                  "(taken from their definitions); length-4 sequences only over a 13-type sub-alphabet with 2 values per "
+                  "(taken from their definitions); length-4 sequences only over a 15-type sub-alphabet with 2 values per "
                   "field; the 6-bit time type TTH is admitted under both readings (bit field / full byte)",
     "technique": "bounded-exhaustive enumeration of field sequences with black-box ownership discovery and metamorphic oracles on the real code",
     "rule": "alphabet: UCH SCH UIN SIN U3N ULG D2C BCD BCD:2 BI0 BI0:3 BI0:7 BI1 BI3:2 BI4:4 BI7 IGN:1 IGN:2 STR:2 HEX:2 "
-            "BDA:3 BTI TTM HDY TTH and STR:* (only as last field of its part); all sequences of length 1..3 x every "
+            "BDA:3 BTI TTM HDY TTH UCH,10 UIN,-10 EXP EXR EXP,10 (float values with several significant digits: 3.14159, -1234.56, 0.001, 0.25) and STR:* (only as last field of its part); all sequences of length 1..3 x every "
             "assignment of fields to master/slave part (thorough: + length 4 over UCH UIN D2C BCD BI0 BI0:3 BI3:2 BI7 "
-            "IGN:1 STR:2 HDY TTH STR:*); per sequence: all combinations of 3 (length 4: 2) values per field, bit fields "
+            "IGN:1 STR:2 HDY TTH UCH,10 EXP STR:*); per sequence: all combinations of 3 (length 4: 2) values per field, bit fields "
             "additionally over their full domain for ownership discovery; formats plain, names, JSON, numeric, "
             "JSON+value-name; every single-bit flip of the encoded data of 3 (2) uniform value combinations.  "
             "distinct = distinct (sequence, encoded master, encoded slave).",
@@ -75,13 +75,14 @@ CHECKS["C10"] = {
         "a full-byte field owns whole bytes, a BIx:n field owns bits x..x+n-1 of one byte",
         "sequences whose definitions overlap (bit ranges of two bit fields sharing a byte intersect) keep oracles (1)-(4) but not the single-field encoding comparison",
         "for a sequence ending in a variable-length field getLength(part, n) must equal n when n bytes were written",
+        "a bit field directly following a bit field with the same first bit starts a new byte (BI0;BI0 and BI0;BI7;BI0 are two bytes, as the repository's test rows fix); it never shares the byte",
         "TTH (6 bits) may be read as a bit field that shares its byte or as a full-byte field; a sequence fails only if it is inconsistent under both readings",
     ],
     "runs": [{
         "harness": "c10_layout", "sources": ["engines/codec/c10_layout.cpp"], "variant": "plain", "libset": "core",
-        "quick": {"parts": 16, "deadline": 150, "bounds": "sequences of length<=3 over 26 types, all m/s splits (138 492 definitions)"},
+        "quick": {"parts": 16, "deadline": 150, "bounds": "sequences of length<=3 over 31 types, all m/s splits (234 892 definitions)"},
         "thorough": {"parts": 16, "deadline": 1500, "args": ["--maxlen", 4],
-                     "bounds": "length<=3 over 26 types + length 4 over 13 types, all m/s splits"},
+                     "bounds": "length<=3 over 31 types + length 4 over 15 types, all m/s splits"},
     }],
 }
 
